@@ -271,14 +271,47 @@ def st_case(draw):
         p['flag_kind'] = draw(st.integers(1, 3))
     if draw(st.integers(0, 2)) == 0:
         p['api'] = draw(st.sampled_from(['positional', 'custom_bucket']))
+    if draw(st.integers(0, 3)) == 0:
+        # lengths counted in samples, not seconds: the same shape a million times larger, off by single samples
+        scale = draw(st.sampled_from([10 ** 6, 2 ** 20, 10 ** 9, 48000 * 3600]))
+        seq = [int(x * scale) + draw(st.integers(-1, 1)) for x in seq]
+        if p['mts'] is not None:
+            p['mts'] = p['mts'] * scale
     case = {'lengths': seq, 'params': p}
     if draw(st.integers(0, 3)) == 0:
         case['word'] = draw(st.lists(st.integers(0, 1), min_size=0, max_size=20))
     return case
 
 
+def big_cases():
+    """Enumerated: two or three lengths around 1e6 / 2e6 that differ from the exact padding bound by single units."""
+    out = []
+    for scale in (10 ** 6, 2 ** 20):
+        vals = [m * scale + d for m in (1, 2) for d in (-1, 0, 1)]
+        for n in (2, 3):
+            for seq in itertools.product(vals, repeat=n):
+                for rate in (0, .5, .9):
+                    for bs in (2, 3):
+                        out.append({'lengths': list(seq), 'params': {'batch_size': bs, 'rate': rate, 'expiration': None,
+                                                                     'mbe': None, 'mts': None, 'sort': False,
+                                                                     'reverse': False}})
+    return out
+
+
 def run_shard(tier, idx, nshards, rec, known):
     out = Outcome()
+    for j, case in enumerate(big_cases()):
+        if j % nshards != idx:
+            continue
+        try:
+            fired, nb, mo = check(tuple(case['lengths']), case['params'])
+        except Violation as v:
+            if known.match(v.sig):
+                rec.known_hits[v.sig] += 1
+                continue
+            out.violation = (case, v.sig, v.detail)
+            return [out]
+        rec.case(case, True, ['enumerated', 'big-lengths'] + sorted(fired), size=len(case['lengths']))
     k = 0
     for n in range(L[tier] + 1):
         for seq in itertools.product(ALPHABET, repeat=n):
